@@ -331,6 +331,12 @@ fn hoist_write_name_display_sp(out: &mut Sink, key: &Name) -> (r: Result<()>)
 { use std::io::Write; match write!(out.w, "/{} ", key.0.s) { Ok(()) => Ok(()), Err(_) => Err(PdfError::Io) } }
 
 #[verifier::external_body]
+fn hoist_write_name_display(out: &mut Sink, key: &Name) -> (r: Result<()>)
+    // "{}" of a Name (not in the pinned text; lets a mutant that drops the SPACE be judged)
+    ensures wrote(old(out), final(out), r, seq![47u8] + encode_utf8(key.0@))
+{ use std::io::Write; match write!(out.w, "/{}", key.0.s) { Ok(()) => Ok(()), Err(_) => Err(PdfError::Io) } }
+
+#[verifier::external_body]
 fn hoist_write_all(out: &mut Sink, buf: &Arc<[u8]>) -> (r: Result<()>)
     // io::Write::write_all appends the whole slice or returns Err
     ensures wrote(old(out), final(out), r, buf@)
